@@ -92,6 +92,8 @@ class LasReader:
         """
         points_left = self.header.point_count - self.points_read
         if points_left <= 0:
+            # Make sure the point source exists (a file without points never needs it otherwise)
+            _ = self.point_source
             return record.ScaleAwarePointRecord.empty(
                 self.header.point_format,
                 self.header.scales,
@@ -297,6 +299,12 @@ class LasReader:
             else:
                 return UncompressedPointReader(source, self.header)
         else:
+            if self.header.are_points_compressed:
+                # No decompressor is needed, but the LasZip vlr must still be hidden
+                try:
+                    self.header.vlrs.pop(self.header.vlrs.index("LasZipVlr"))
+                except ValueError:
+                    pass
             return EmptyPointReader(source)
 
     def __enter__(self):
